@@ -59,6 +59,16 @@ class AbsHub:
     def merge(self, conds, snaps, mv):
         self.term = snaps[0]
 
+    def sym_getattr(self, eng, name):
+        if name == 'set_bits':
+            # MemoryControllerHub.set_bits is a mock of the implementation (hardware update of descriptor bits)
+            from pyvc.interp import _Native
+
+            def mock(e, *a):
+                raise PyRaise(e.make_exc(NotImplementedError, ''))
+            return _Native(mock)
+        raise PyRaise(eng.make_exc(AttributeError, "'MemoryControllerHub' object has no attribute '%s'" % name))
+
     def sym_getitem(self, eng, key):
         desc, size = key
         pa = desc.attrs['paddress'].attrs['physicaladdress']
